@@ -224,23 +224,38 @@ func VfC06_Memory() {
 }
 
 // VfC06_Aggregate: extractvalue / insertvalue follow the index path through
-// arrays and (packed) structs.
+// arrays and (packed) structs: every index path of a nested aggregate in which
+// the indices at different depths differ.
 //
 //vf:unwind 100
 func VfC06_Aggregate() {
-	a, b, c := hIntTy("a"), hFloatTy("b"), hIntTy("c")
+	a, b, c, d := hIntTy("a"), hFloatTy("b"), hIntTy("c"), hIntTy("d")
 	n := uint64(vfByte("arr.len"))
-	vfAssume(n >= 2)
-	inner := &types.StructType{Fields: []types.Type{b, c}, Packed: vfBool("inner.packed")}
+	vfAssume(n >= 3)
+	leaf := &types.StructType{Fields: []types.Type{c, d, b}}
+	inner := &types.StructType{Fields: []types.Type{b, c, leaf}, Packed: vfBool("inner.packed")}
 	arr := types.NewArray(n, inner)
-	outer := types.NewStruct(a, arr)
+	outer := types.NewStruct(a, arr, inner)
 	x := hV("x", outer)
 	vfReach("C06.aggregate")
-	vfAssert("C06.extractvalue.depth1", hTySame(NewExtractValue(x, 0).Type(), a))
-	vfAssert("C06.extractvalue.depth1b", hTySame(NewExtractValue(x, 1).Type(), arr))
-	vfAssert("C06.extractvalue.depth2", hTySame(NewExtractValue(x, 1, 1).Type(), inner))
-	vfAssert("C06.extractvalue.depth3", hTySame(NewExtractValue(x, 1, 0, 1).Type(), c))
-	vfAssert("C06.insertvalue", hTySame(NewInsertValue(x, hV("e", c), 1, 0, 1).Type(), outer))
+	type pth struct {
+		idx  []uint64
+		want types.Type
+	}
+	paths := []pth{
+		{[]uint64{0}, a}, {[]uint64{1}, arr}, {[]uint64{2}, inner},
+		{[]uint64{1, 0}, inner}, {[]uint64{1, 2}, inner},
+		{[]uint64{2, 0}, b}, {[]uint64{2, 1}, c}, {[]uint64{2, 2}, leaf},
+		{[]uint64{1, 2, 0}, b}, {[]uint64{1, 0, 1}, c}, {[]uint64{1, 1, 2}, leaf},
+		{[]uint64{2, 2, 0}, c}, {[]uint64{2, 2, 1}, d}, {[]uint64{2, 2, 2}, b},
+		{[]uint64{1, 2, 2, 0}, c}, {[]uint64{1, 0, 2, 1}, d}, {[]uint64{1, 1, 2, 2}, b},
+	}
+	k := vfChoice("path", len(paths))
+	p := paths[k]
+	vfAssert("C06.extractvalue.inst", hTySame(NewExtractValue(x, p.idx...).Type(), p.want))
+	vfAssert("C06.insertvalue.inst", hTySame(NewInsertValue(x, hV("e", p.want), p.idx...).Type(), outer))
+	cx := hC(outer)
+	_ = cx
 }
 
 // VfC06_Calls: call, invoke, callbr yield the callee's return type (also for
